@@ -454,6 +454,14 @@ def poll_body_rules(F, R):
         else:
             R.check(out[:len(want)] == want and len(bd) == 1, "P-body", name,
                     "decoder outcome `%s` is reported as %s (expected %s)" % (name, out, want), where=fid)
+        if name == "err-other":
+            # the frame that was refused stays with the caller: after UnexpectedProtocol a broker goes on with the other family's
+            # known-protocol entry point on these very bytes (C13), and polling again reports the same error
+            st = pr.packet.fields.get("state")
+            body = st.fields.get("0") if isinstance(st, Adt) and st.variant == "Body" else None
+            kept = isinstance(body, Adt) and body.fields.get("buf") == Sym("BUF")
+            R.check(kept, "P-body", "err-other/frame-kept",
+                    "after a decoder error the caller-held state is %s (expected: still the Body state holding the frame's bytes)" % (repr(st)[:120],), where=fid)
     # the decoder sees the whole buffer
     pr = PollRun(F, body_state(2), [("chunk", 3)], buf_len=5).run()
     views = [c for c in pr.calls if c[0] == "index" and isinstance(c[2], Adt)]
